@@ -258,8 +258,9 @@ ARGS_INDEX = {"start": 0, "stop": 1, "x": 0, "a": 0, "b": 1, "p": 0, "q": 1}
 
 SEQ_KINDS = ["valid_handle", "handle_arg", "handle_dur", "bad_add", "bad_sub", "set_absent", "bad_filter", "sequencing", "rate",
              "amp", "delay", "partial_seq", "copy_seq", "failed_export", "failed_forge", "seq_add", "set_filter",
-             "tool_repeat", "handle_addbp", "handle_flags", "handle_bad_array"]
-EL_KINDS = ["el_arg", "el_dur", "el_overwrite", "partial_el", "copy_el", "wrap_seq", "tool_linear", "el_bad_array"]
+             "tool_repeat", "handle_addbp", "handle_flags", "handle_bad_array", "break_all_add"]
+EL_KINDS = ["el_arg", "el_dur", "el_overwrite", "partial_el", "copy_el", "wrap_seq", "tool_linear", "el_bad_array",
+            "el_overwrite_sweep"]
 BP_KINDS = ["bp_arg", "bp_dur", "bp_insert", "bp_remove", "bp_burst", "bp_move_edit"]
 ALL_KINDS = SEQ_KINDS + EL_KINDS + BP_KINDS
 
@@ -273,8 +274,14 @@ def tail(rng, sh, extra_obs, first=False, force=None):
         # the commonest stateful pattern: observe / export, edit one argument through the live element handle, observe again
         op = valid_handle_edit(rng, sh)
         if op:
-            ops.append(op)
             s = op[1]
+            if rng.random() < 0.5:
+                # a channel delay declared and the sequence forged / exported before the edit (what is remembered from a
+                # delayed forge must not survive the edit)
+                b0 = sh.bp_of(s, op[2], op[3])
+                ops += [("SSetDelay", s, op[3], float(Fraction(rng.choice([2, 3, 8])) / Fraction(own_sr(b0, some_sr(rng, sh))))),
+                        ("OSForge", s, True, True, False), rng.choice([("OSSeqx", s, False), ("OSAwg", s, ("slice", None, None, None)), ("OSDescr", s)])]
+            ops.append(op)
             extra_obs += [("OSDescr", s), ("OSForge", s, True, True, False)]
             if rng.random() < 0.7:
                 return ops
@@ -407,7 +414,7 @@ def tail(rng, sh, extra_obs, first=False, force=None):
                 Shape.apply(sh, op)
             extra_obs += [("OBDescr", r), ("OBForge", r)]
         elif k in ("handle_arg", "handle_dur", "bad_add", "bad_sub", "set_absent", "bad_filter", "sequencing", "rate", "amp", "delay", "failed_export", "failed_forge", "seq_add", "set_filter",
-                   "tool_repeat", "handle_addbp", "handle_flags", "handle_bad_array"):
+                   "tool_repeat", "handle_addbp", "handle_flags", "handle_bad_array", "break_all_add"):
             s = rng.choice(seqs)
             poss = list(sh.S[s]["pos"])
             pos = rng.choice(poss)
@@ -437,8 +444,10 @@ def tail(rng, sh, extra_obs, first=False, force=None):
                 ops.append(("SAddSub", s, rng.choice([pos, pos, len(poss) + 1]), t))
             elif k == "set_absent":
                 absent = rng.choice([98, "zz"])
-                ops.append(rng.choice([("SSetDelay", s, absent, float(Fraction(rng.choice([50, 64, 100])) / Fraction(SR))),
-                                       ("SSetAmp", s, absent, 1), ("SSetOff", s, absent, 0.125)]))
+                ops.append(("SSetDelay", s, absent, float(Fraction(rng.choice([300000, 400000])) / Fraction(SR))))
+                if rng.random() < 0.5:
+                    ops.append(rng.choice([("SSetAmp", s, absent, 1), ("SSetOff", s, absent, 0.125)]))
+                extra_obs += [("OSForge", s, True, True, False), ("OSAwg", s, ("slice", None, None, None)), ("OSSeqx", s, False)]
             elif k == "bad_filter":
                 ops.append(rng.choice([("SSetFilter", s, c, "XX", 1, SR * 0.2, None),
                                        ("SSetFilter", s, c, "HP", 1, SR * 0.2, 1 / (SR * 0.2)),
@@ -454,8 +463,9 @@ def tail(rng, sh, extra_obs, first=False, force=None):
                 # an export that is refused half-way (amplitude far too small for the voltages), the cause repaired, a
                 # delay changed, and everything observed again
                 old = sh.S[s].get("amp", {}).get(chkey(c), 4)
-                exp = rng.choice([("OSSeqx", s, True), ("OSSeqx", s, False), ("OSAwg", s, ("slice", None, None, None))])
-                ops += [("SSetAmp", s, c, 0.0009765625), exp, ("SSetAmp", s, c, old),
+                exps = [("OSSeqx", s, True), ("OSSeqx", s, False), ("OSAwg", s, ("slice", None, None, None))]
+                rng.shuffle(exps)
+                ops += [("SSetAmp", s, c, 0.0009765625)] + exps + [("SSetAmp", s, c, old),
                         ("SSetDelay", s, c, float(Fraction(rng.choice([2, 3, 8, 20])) / Fraction(SR)))]
                 extra_obs += [("OSSeqx", s, False), ("OSSeqx", s, True), ("OSForge", s, True, True, False)]
             elif k == "seq_add":
@@ -477,6 +487,24 @@ def tail(rng, sh, extra_obs, first=False, force=None):
                 ops += [("BNew", nb), ("BInsert", nb, -1, "ramp", [0, 0.125], float(Fraction(8) / Fraction(SR2)), "h"),
                         ("BSetSR", nb, SR2), ("OSCheck", s), ("SElemAddBp", s, pos, rng.choice([c, 97, "hh"]), nb)]
                 extra_obs += [("OSCheck", s), ("OSChannels", s), ("OSForge", s, False, False, False), ("OSDescr", s)]
+            elif k == "break_all_add":
+                # every element of the sequence made invalid through its handle (one channel gets another duration), then
+                # the sequence is used as an operand of + in both orders and queried
+                did = 0
+                for p2, ent2 in sh.S[s]["pos"].items():
+                    if ent2[0] != "el":
+                        continue
+                    bch = [v for v in ent2[1]["chans"].values() if v[0] == "bp" and v[2] and v[2]["names"]]
+                    if len(ent2[1]["chans"]) >= 2 and bch:
+                        v = bch[0]
+                        nm2 = unique_names(v[2]["names"])[-1]
+                        ops.append(("SElemChangeDur", s, p2, v[1], nm2, dur_value(rng, own_sr(v[2], SR)) * 3, False))
+                        did += 1
+                others = [x for x in sh.S if sh.S[x]["pos"]]
+                t = rng.choice(others)
+                u, u2 = sh.fresh("S"), sh.fresh("S")
+                ops += [("OSCheck", s), ("SAdd", s, t, u), ("SAdd", t, s, u2)]
+                extra_obs += [("OSLen", u), ("OSLen", u2), ("OSCheck", s), ("OSChannels", s)]
             elif k == "handle_bad_array":
                 # addArray with a marker array of another length than the waveform, on an existing channel: refused, and
                 # the channel keeps what it held
@@ -514,13 +542,32 @@ def tail(rng, sh, extra_obs, first=False, force=None):
                 if names and len((b or {}).get("durs", [])) == len(names):
                     i = rng.randrange(len(names))
                     if isinstance(b["durs"][i], (int, float)):
-                        ops += [("SElemChangeDur", s, pos, c, names[i], float(Fraction(5, 4) / Fraction(own_sr(b, SR))), False),
+                        ops += [("SSetDelay", s, c, float(Fraction(rng.choice([2, 3, 8])) / Fraction(own_sr(b, SR)))),
+                                ("SElemChangeDur", s, pos, c, names[i], float(Fraction(5, 4) / Fraction(own_sr(b, SR))), False),
                                 ("OSForge", s, True, True, False), ("OSDescr", s),
                                 ("SElemChangeDur", s, pos, c, names[i], b["durs"][i], False)]
                         extra_obs += [("OSForge", s, True, True, False), ("OSPoints", s)]
             elif k == "delay":
                 ops.append(("SSetDelay", s, c, float(Fraction(rng.choice([0, 2, 3, 8, 20])) / Fraction(SR))))
                 extra_obs += [("OSSeqx", s, rng.random() < 0.5), ("OSForge", s, True, True, False)]
+        elif k == "el_overwrite_sweep":
+            # the element queried, then every channel replaced by a blueprint at another sample rate (the element stays
+            # valid, at the new rate), then swept: the sweep must run at the element's current rate
+            e = rng.choice(els)
+            SR = some_sr(rng, sh)
+            for v in sh.E[e]["chans"].values():
+                if v[0] == "bp" and (v[2] or {}).get("sr"):
+                    SR = v[2]["sr"]
+            SR2 = SR * rng.choice([2, 4, 0.5])
+            ops += [("OESR", e), ("OEPoints", e)]
+            chs = [v[1] for v in sh.E[e]["chans"].values()]
+            for c2 in chs:
+                nb = sh.fresh("B")
+                ops += [("BNew", nb), ("BInsert", nb, -1, "ramp", [0, 0.125], float(Fraction(8) / Fraction(SR2)), "w"),
+                        ("BSetSR", nb, SR2), ("EAddBp", e, c2, nb)]
+            q = sh.fresh("S")
+            ops += [("OESR", e), ("TLinear", e, chs[0], "w", rng.choice(["start", "stop", 0]), 0, 0.25, 0.125, q)]
+            extra_obs += [("OSSR", q), ("OSCheck", q), ("OSDescr", q), ("OESR", e)]
         elif k == "el_bad_array":
             e = rng.choice(els)
             ch = rng.choice(list(sh.E[e]["chans"].values()))
@@ -579,6 +626,10 @@ def forge_safe(prog, sh):
     return True
 
 
+def has_arrays(prog):
+    return any(op[0] in ("EAddArray", "SElemAddArray") for op in prog)
+
+
 def huge(prog):
     """Programs with very long waveforms (tens of thousands of samples) are left to their own generators."""
     for op in prog:
@@ -598,7 +649,8 @@ def make(rng, cases, n, max_prog=90):
     rng.shuffle(pool)
     if not pool:
         return out
-    kinds = list(ALL_KINDS)
+    # the commonest stateful pattern (observe, edit through the handle, observe again) gets several slots per cycle
+    kinds = [(k, 0) for k in ALL_KINDS] + [("valid_handle", i) for i in (1, 2, 3)] + [("failed_export", 1), ("failed_forge", 1)]
     rng.shuffle(kinds)
     used = {k: 0 for k in kinds}
     tries = 0
@@ -620,11 +672,6 @@ def make(rng, cases, n, max_prog=90):
         new = list(prog)
         safe = forge_safe(prog, sh)
         base_regs = {"B": max(list(sh.B) + [-1]) + 1, "E": max(list(sh.E) + [-1]) + 1, "S": max(list(sh.S) + [-1]) + 1}
-        if sh.S and rng.random() < 0.5:
-            # element handles fetched before the program's first observation and kept: later edits through them happen
-            # without any further `element()` call
-            first = next(i for i, op in enumerate(new) if op[0].startswith("O"))
-            new.insert(first, ("HHoldHandles",))
         added = 0
         pre_obs = []
         if not any(v["chans"] for v in sh.E.values()) and rng.random() < 0.6:
@@ -651,11 +698,18 @@ def make(rng, cases, n, max_prog=90):
         has_s = any(v["pos"] for v in sh.S.values())
         has_e = any(v["chans"] for v in sh.E.values())
         has_b = any(v["names"] for v in sh.B.values())
-        app = [k for k in kinds if (k in SEQ_KINDS and has_s) or (k in EL_KINDS and has_e) or (k in BP_KINDS and has_b)]
+        app = [k for k in kinds if (k[0] in SEQ_KINDS and has_s) or (k[0] in EL_KINDS and has_e) or (k[0] in BP_KINDS and has_b)]
         if not app:
             continue
-        want = min(app, key=lambda k: used[k])          # the applicable kind used least so far
-        used[want] += 1
+        slot = min(app, key=lambda k: used[k])          # the applicable kind used least so far
+        used[slot] += 1
+        want = slot[0]
+        hold_p = 0.8 if want in ("valid_handle", "handle_arg", "handle_dur", "handle_addbp", "handle_flags", "failed_forge") else 0.35
+        if sh.S and rng.random() < hold_p:
+            # element handles fetched before the program's first observation and kept: later edits through them happen
+            # without any further `element()` call
+            first = next(i for i, op in enumerate(new) if op[0].startswith("O"))
+            new.insert(first, ("HHoldHandles",))
         for _round in range(rng.randint(1, 2)):
             extra_obs = []
             t = tail(rng, sh, extra_obs, first=_round == 0, force=want if _round == 0 else None)
@@ -674,7 +728,15 @@ def make(rng, cases, n, max_prog=90):
                 t = [o for o in t if o[0] not in FORGING or own(o)]
                 t = [o for o in t if not (o[0] in ("SAddElement",) and o[1] >= base_regs["S"] and o[3] < base_regs["E"])]
             obs = obs + [o for o in extra_obs if o not in obs]
-            new += t + obs
+            if has_arrays(new + t):
+                # `==` on objects holding raw arrays is numpy's business (it raises or not depending on how far the dict
+                # comparison gets; C20 restricts `==` to blueprint channels): not re-observed once the objects were edited
+                obs = [o for o in obs if o[0] not in ("OSEq", "OEEq")]
+                t = [o for o in t if o[0] not in ("OSEq", "OEEq")]
+            # every object's description last: it is what lets the driver recognise a wait target that coincides with the
+            # elapsed time up to float dust (lang.wait_dust) after an edit of a duration
+            descr = [("OSDescr", r) for r in sorted(sh.S)] + [("OEDescr", r) for r in sorted(sh.E)] + [("OBDescr", r) for r in sorted(sh.B)]
+            new += t + obs + [o for o in descr[:12] if o not in obs]
         if not added:
             continue
         out.append({"prog": new, "kind": "followup", "followup": True, "base_kind": c.get("kind"), "n_base": len(prog),
